@@ -103,17 +103,27 @@ func (c *dctl) fn(id string, buffered bool) getoptions.CommandFn {
 			c.peak = c.cur
 		}
 		c.mu.Unlock()
+		pad := ""
+		lateOut := func() {}
 		if buffered {
+			// three chunks per attempt; every third task writes large ones (an attempt's output must
+			// reach the writer as one block whatever its size)
 			w := dag.Stdout(ctx)
-			for j := 0; j < 3; j++ {
-				fmt.Fprintf(w, "<%s.%d.%d>", id, k, j)
+			if len(id) > 0 && (int(id[0])+k)%3 == 0 {
+				pad = "." + strings.Repeat("x", 35000)
 			}
+			// two chunks on entry, the third just before returning (other tasks may finish in between)
+			for j := 0; j < 2; j++ {
+				fmt.Fprintf(w, "<%s.%d%s.%d>", id, k, pad, j)
+			}
+			lateOut = func() { fmt.Fprintf(w, "<%s.%d%s.%d>", id, k, pad, 2) }
 		}
 		select {
 		case c.changed <- struct{}{}:
 		default:
 		}
 		res := <-ch
+		lateOut()
 		c.mu.Lock()
 		c.events = append(c.events, DEvent{Kind: "exit", ID: id, K: k, R: res})
 		delete(c.running, id)
